@@ -56,7 +56,9 @@ OPTION_CONSUMERS = {
 @rule("C13.option-reads", props=["C13"], min_instances=20, mutants=[])
 def option_reads(ctx):
     """Every read of an algebra option lies in a confirmed consumer (census; a new reader is reported, not guessed)."""
+    from ..astx import private_helper_owners
     repo = ctx.repo
+    owners = {opt: private_helper_owners(repo, set(tab)) for opt, tab in OPTION_CONSUMERS.items()}
     for mname, qual, fn in repo.all_functions():
         for n in walk_shallow(fn):
             if isinstance(n, ast.Attribute) and isinstance(n.ctx, ast.Load) and n.attr in OPTION_CONSUMERS:
@@ -69,6 +71,8 @@ def option_reads(ctx):
                 c = f"{qual}#{n.attr}"
                 if qual in OPTION_CONSUMERS[n.attr]:
                     ctx.ok(c, n, module=mname, reason=OPTION_CONSUMERS[n.attr][qual])
+                elif qual in owners[n.attr]:
+                    ctx.ok(c, n, module=mname, reason="private helper called only from confirmed consumers")
                 else:
                     raise Unknown(c, f"new reader of option {n.attr!r} ({un(n)}) - not in the confirmed consumer table; "
                                      f"whether results can depend on it is not decided", n)
